@@ -90,6 +90,13 @@ def run(ctx):
         extra = rng.choice(["", "", " dup", " 1 add", " [dup]", " ?(2 ?lt)"])
         progs.append("%s (%s)%s%s" % (starts, b, op, extra))
         # metamorphic pairs evaluated on the implementation alone
+        # the optional forms under a closure: `X?` keeps the input whatever the closure around it
+        if rng.random() < 0.5:
+            b2 = graph_body(rng)
+            form = rng.choice(["(%s)?%s", "((%s)?)%s", "((%s), )%s", "(%s)?%s ", "((%s)? 0 add)%s"])
+            progs.append("%s %s" % (starts, form % (b, op)))
+            progs.append("%s (%s, (%s)?)%s" % (starts, b, b2, op))
+            meta.append(("qmark-under-closure", "%s (%s)?%s" % (starts, b, op), "%s ((%s), )%s" % (starts, b, op)))
         meta.append(("plus", "%s (%s)+" % (starts, b), "%s (%s) (%s)*" % (starts, b, b)))
         meta.append(("qmark", "%s (%s)?" % (starts, b), "%s (%s, )" % (starts, b)))
         meta.append(("collapse", "%s (%s)%s" % (starts, b, rng.choice(["+*", "*+", "**"])), "%s (%s)*" % (starts, b)))
